@@ -1,6 +1,6 @@
 """C29 — URI escaping / HTML escaping: table parts decided completely (K6), loop guards (K4); round trips declined."""
 from ..core import Rule
-from ..interp import normx
+from ..interp import normx, nkey
 from ..prog import *
 from ..facts import AnalysisBroken
 
@@ -163,6 +163,93 @@ def rule_query(P):
     return r
 
 
+def ref_decode(t, ctl):
+    """evhttp_decode_uri_internal as documented: %XY with two hexadecimal digits is the byte; '+' is a space when plus-decoding is on (always for ctl 1, behind the first '?' for ctl -1)"""
+    plus = ctl == 1
+    out = bytearray()
+    i = 0
+    HEXD = b"0123456789abcdefABCDEF"
+    while i < len(t):
+        c = t[i]
+        if c == 0x3f:
+            if ctl < 0:
+                plus = True
+        elif c == 0x2b and plus:
+            c = 0x20
+        elif i + 2 < len(t) and c == 0x25 and t[i + 1] in HEXD and t[i + 2] in HEXD:
+            c = int(t[i + 1:i + 3], 16)
+            i += 2
+        out.append(c)
+        i += 1
+    return bytes(out)
+
+
+def rule_decode_eval(P):
+    """the decoder evaluated on every string over {a % 4 z + ?} up to length 3 and on longer escapes, in byte memory that holds exactly `length` input bytes (a look-ahead behind the end
+    reads a byte that holds no data) and an output block of length+1: the output is the documented decoding, terminated, its length is returned, nothing is written outside the block"""
+    from ..cmem import MEM0, mem_put
+    from ..interp import run_all
+    import itertools
+    r = Rule("C29-decode-eval", "K6", "evhttp_decode_uri_internal: output = documented decoding, at most length bytes + terminator written inside the output block, no read behind the input", floor=500)
+    f = P.fn("evhttp_decode_uri_internal")
+    OUT = MEM0 + 5000
+    alpha = b"a%4z+?"
+    inputs = [bytes(x) for n in range(0, 4) for x in itertools.product(alpha, repeat=n)] + [b"%41%", b"a%4", b"%4%41", b"+%2b?+", b"%41%42", b"?+%20+", b"%e9%C9", b"%%41", b"%4z%41", b"a?b+c", b"%41a"]
+    HEXD = b"0123456789abcdefABCDEF"
+    pairs = [b"%" + bytes([x, y]) + b"." for x in HEXD for y in HEXD]          # every pair of hexadecimal digits, in either case
+    nb = 0
+    for t, ctls in [(t, (-1, 0, 1)) for t in inputs] + [(t, (0,)) for t in pairs]:
+        for ctl in ctls:
+            env = {"#typed": 1, "#bytemem": 1, f.params[0][0]: MEM0, f.params[1][0]: len(t), f.params[2][0]: OUT, f.params[3][0]: ctl}
+            mem_put(env, MEM0, t, terminate=False)
+
+            def hook(el, e_):
+                n = callee_name(el.e)
+                if n == "strtol":
+                    a0 = strip(el.e[2][0])
+                    try:
+                        d0 = e_.get(nkey(["idx", a0, ["int", 0]]))
+                        d1 = e_.get(nkey(["idx", a0, ["int", 1]]))
+                        if d0 is None or d1 is None:
+                            return "impure"
+                        return int(bytes([d0 & 0xff, d1 & 0xff]), 16)
+                    except Exception:
+                        return "impure"
+                return None
+            outs = [o for o in run_all(f, (f.entry, 0), env, lambda el: False, P, hook, max_steps=600) if not (o.kind == "exit" and o.why == "noreturn")]
+            want = ref_decode(t, ctl)
+            for o in outs:
+                bad = None
+                if o.kind == "unknown" and "holds no data" in (o.why or ""):
+                    bad = ("read-behind-input", "reads a byte behind the %d input bytes (%s)" % (len(t), o.why[:80]))
+                elif o.kind != "ret":
+                    r.brk("evhttp_decode_uri_internal(%r, %d): %s %s" % (t, ctl, o.kind, o.why))
+                    return r
+                else:
+                    try:
+                        rv = tevalx(normx(o.at.e[1]), o.env, P, f)
+                    except EvalError as ex:
+                        r.brk("evhttp_decode_uri_internal: return value: %s" % ex)
+                        return r
+                    written = sorted(k[1] - OUT for k in o.env if isinstance(k, tuple) and k[0] == "m" and (k[1] >= OUT - 64) and k[1] < OUT + 4096)
+                    got = bytes((o.env.get(("m", OUT + i), 0x3f) & 0xff) for i in range(len(want)))
+                    if written and (written[0] < 0 or written[-1] > len(t)):
+                        bad = ("write-outside", "writes at offsets %s of an output block of %d bytes" % ([w for w in written if w < 0 or w > len(t)], len(t) + 1))
+                    elif rv != len(want) or got != want or o.env.get(("m", OUT + len(want))) != 0:
+                        bad = ("output", "yields %r (returns %r, terminator %r); documented %r" % (got, rv, o.env.get(("m", OUT + len(want))), want))
+                r.inst((t, ctl), {"input": t.decode("latin-1"), "decode_plus_ctl": ctl, "output": want.decode("latin-1")} if nb < 3 and t == b"%41" else None)
+                if bad and nb < 6:
+                    nb += 1
+                    r.bad("K6:evhttp_decode_uri_internal:%s" % bad[0], "%s:%d" % (f.file, f.line), f.name, "input %r, decode_plus_ctl %d: %s" % (t, ctl, bad[1]))
+    seen, uniq = set(), []
+    for f_ in r.findings:
+        if f_.key not in seen:
+            seen.add(f_.key)
+            uniq.append(f_)
+    r.findings = uniq
+    return r
+
+
 def run(ctx, config):
     P = ctx.prog(UNITS, config)
     rules = []
@@ -296,7 +383,16 @@ def run(ctx, config):
     rules.append(r3)
 
     # ---- decoder
-    r4 = Rule("C29-decode", "K4", "evhttp_decode_uri_internal: look-ahead reads guarded by i+k < length; one output store per iteration; i advances between stores", floor=4)
+    # (since C29-decode-eval decides the decoder by evaluation - output, bounds, escapes - the syntactic clauses below are kept as notes: a decoder spelled differently is not a violation)
+    def r4_note(key_, where_, fn_, msg_):
+        r4.notes.append("%s: %s" % (key_, msg_))
+    def r5_note(key_, where_, fn_, msg_):
+        r5.notes.append("%s: %s" % (key_, msg_))
+    def r4_brk(msg_):
+        r4.notes.append("shape not recognised: %s" % msg_)
+    def r5_brk(msg_):
+        r5.notes.append("shape not recognised: %s" % msg_)
+    r4 = Rule("C29-decode", "K4", "evhttp_decode_uri_internal: look-ahead reads guarded by i+k < length; one output store per iteration; i advances between stores (informational)", floor=0)
     f = P.fn("evhttp_decode_uri_internal")
     uri, length, ret = f.params[0][0], f.params[1][0], f.params[2][0]
     def lookahead(e):
@@ -333,13 +429,13 @@ def run(ctx, config):
                             bound = max(bound or 0, strip(l[3])[1])
                 r4.inst(("read", key(node), bid), {"site": where, "read": show(node), "offset": k, "guard_offset": bound})
                 if bound is None or bound < k:
-                    r4.bad("K4:evhttp_decode_uri_internal:read-%s-unguarded" % show(node), where, f.name,
+                    r4_note("K4:evhttp_decode_uri_internal:read-%s-unguarded" % show(node), where, f.name,
                            "%s is read without a dominating test %s + %d < %s" % (show(node), show(base), k, length))
     outs = [el for el, lhs, op, rhs in f.stores() if is_e(strip(lhs), "idx") and eq(strip(lhs)[1], ["var", ret, "param"])]
     inloop = [el for el in outs if any(is_e(s, "incdec") for s in walk(el.e[2]))]
     r4.inst("stores", {"output_stores": [show(e.e) for e in outs]})
     if len(inloop) != 1 or len(outs) != 2:
-        r4.bad("K4:evhttp_decode_uri_internal:output-stores", "%s:%d" % (f.file, f.line), f.name,
+        r4_note("K4:evhttp_decode_uri_internal:output-stores", "%s:%d" % (f.file, f.line), f.name,
                "expected exactly one ret[j++] store in the loop and the terminating NUL, found %s" % [show(e.e) for e in outs])
     else:
         st = inloop[0]
@@ -349,7 +445,7 @@ def run(ctx, config):
             if b.term["k"] == "for" and is_e(c, "bin") and c[1] == "<" and eq(c[3], ["var", length, "param"]):
                 ivar = strip(c[2])
         if ivar is None:
-            r4.brk("loop bound i < length not found")
+            r4_brk("loop bound i < length not found")
         else:
             def adv(el):
                 e = el.e
@@ -361,7 +457,7 @@ def run(ctx, config):
             w = f.path_avoiding(st.pos(), lambda el: el is st, adv)
             r4.inst("advance", {"store": show(st.e), "index": show(ivar), "path_without_advance": bool(w)})
             if w is not None:
-                r4.bad("K4:evhttp_decode_uri_internal:store-without-advance", st.where(), f.name,
+                r4_note("K4:evhttp_decode_uri_internal:store-without-advance", st.where(), f.name,
                        "two output stores can happen without the input index advancing: output can outgrow the input")
             # i never decreases
             for el, lhs, op, rhs in f.stores():
@@ -369,16 +465,16 @@ def run(ctx, config):
                     rr = strip(rhs)
                     if op == "=" and (is_e(rr, "int") and rr[1] == 0 or (is_e(rr, "asg") and is_e(strip(rr[3]), "int"))):
                         continue
-                    r4.bad("K4:evhttp_decode_uri_internal:index-modified", el.where(), f.name, "input index modified by %s" % show(el.e))
+                    r4_note("K4:evhttp_decode_uri_internal:index-modified", el.where(), f.name, "input index modified by %s" % show(el.e))
     # the value of a %XX escape: either the recognised strtol idiom over exactly the two digits, or a pure expression that is
     # evaluated for every pair of hexadecimal digits (22 x 22) against 16*hi + lo
-    r5 = Rule("C29-hexvalue", "K6", "the byte produced for %XY is 16*X + Y for every pair of hexadecimal digits, in either case", floor=1)
+    r5 = Rule("C29-hexvalue", "K6", "the byte produced for %XY is 16*X + Y for every pair of hexadecimal digits, in either case (informational; decided by C29-decode-eval)", floor=0)
     HEX = "0123456789abcdefABCDEF"
     csts = [(el, rhs) for el, lhs, op, rhs in f.stores() if is_e(strip(lhs), "var") and strip(lhs)[1] == "c" and
             any(is_e(q, "idx") and eq(q[1], ["var", uri, "param"]) and is_e(strip(q[2]), "bin") for q in walk(rhs)) or
             (is_e(strip(lhs), "var") and strip(lhs)[1] == "c" and is_e(strip(rhs), "call") and callee_name(strip(rhs)) == "strtol")]
     if len(csts) != 1:
-        r5.brk("the store of the decoded escape value was not recognised (%d candidates)" % len(csts))
+        r5_brk("the store of the decoded escape value was not recognised (%d candidates)" % len(csts))
     else:
         el, rhs = csts[0]
         rr = strip(rhs)
@@ -394,7 +490,7 @@ def run(ctx, config):
             okd = base16 and all(srcs.get(k) == v for k, v in want.items())
             r5.inst("strtol", {"site": el.where(), "idiom": "strtol(tmp, NULL, 16) with tmp = {uri[i+1], uri[i+2], NUL}", "digits": srcs, "ok": okd})
             if not okd:
-                r5.bad("K6:evhttp_decode_uri_internal:escape-value", el.where(), f.name, "the escape is not converted from exactly its two digits in base 16: %s" % srcs)
+                r5_note("K6:evhttp_decode_uri_internal:escape-value", el.where(), f.name, "the escape is not converted from exactly its two digits in base 16: %s" % srcs)
         else:
             leaves = [q for q in walk(rr) if is_e(q, "idx") and eq(q[1], ["var", uri, "param"])]
             k1 = key(["idx", ["var", uri, "param"], ["bin", "+", ["var", "i", "local"], ["int", 1, "1"]]])
@@ -408,12 +504,18 @@ def run(ctx, config):
                             wrong.append("%%%s%s->%#x" % (a, b_, v))
                 r5.inst("expr", {"site": el.where(), "expression": show(rr)[:90], "pairs_checked": len(HEX) ** 2, "wrong": wrong[:6]})
                 if wrong:
-                    r5.bad("K6:evhttp_decode_uri_internal:escape-value", el.where(), f.name,
+                    r5_note("K6:evhttp_decode_uri_internal:escape-value", el.where(), f.name,
                            "%d of %d hexadecimal digit pairs decode to the wrong byte (e.g. %s)" % (len(wrong), len(HEX) ** 2, ", ".join(wrong[:4])))
             except EvalError as ex:
-                r5.brk("escape value expression cannot be evaluated: %s" % ex)
+                r5_brk("escape value expression cannot be evaluated: %s" % ex)
     rules.append(r5)
     rules.append(r4)
+    try:
+        rules.append(rule_decode_eval(P))
+    except AnalysisBroken as ex:
+        rq = Rule("C29-decode-eval", "K6", "decoder evaluation", floor=1)
+        rq.brk(str(ex))
+        rules.append(rq)
     try:
         rules.append(rule_query(P))
     except AnalysisBroken as ex:
